@@ -53,6 +53,11 @@ def scenarios(tier, seed):
             sc = gen.with_tol(gen.base(m, a, b, abs(b - a) / 2.0))
             sc["ops"] = [{"op": "integrate", "cbs": [{"kind": "setdt", "vals": [abs(b - a) / (48.0 if not thorough else 200.0)]}]}]
             scs.append(sc)
+    # the clamped last step is rejected and shortened by the controller (steep solution just before the target)
+    for m in ["RK45CK", "DOPRI45"] + (["RK87", "AHE"] if thorough else []):
+        for (a, b) in ((0.0, 1.0), (0.0, -1.0)):
+            for tol in (1e-5, 1e-8):
+                scs.append(gen.base(m, a, b, 0.2, rtol=tol, atol=tol, problem="steeplate", y0=[1.0], budget=1000000))
     # dtypes
     for dt_ in ("float32", "longdouble"):
         for m in ["RK4", "RK45CK", "ABAS5O6H"] + (["BackwardEuler", "DOPRI45"] if thorough else []):
